@@ -114,6 +114,13 @@ CLAIMED = {
         text="One catalogue violation is placed on known physical line(s) of a decorated valid program; the first diagnostic must have the form file:line:col: error: and name the presumed file and one of the "
              "presumed lines the construct occupies. Cases where gcc's reported location disagrees with the tracker are discarded.",
         note="Only constructs whose diagnostic is raised at one of their own tokens are used; one recorded finding (file-scope object of incomplete type diagnosed at end of unit) is replayed separately."),
+    "C10": dict(
+        category="exploration", design_ref="DESIGN.md 3/C10",
+        engine="enumeration+hypothesis",
+        technique="catalogue-driven negative testing: ~330 violating templates joined to the error()/fatal() sites extracted from the working tree, instantiated at file/block scope, inside macro expansions, after line markers and inside Hypothesis-generated host programs; two-directional oracle with a gcc -pedantic-errors guard",
+        text="Every catalogue entry (constraint violations of declarations, expressions, statements, initialisers, literals, directives; unsupported features) must be rejected with status 1 and a well-formed diagnostic "
+             "while the same host program without it compiles to valid IL. The evidence lists which diagnostic sites of the current tree were reached and which were not.",
+        note="Covers the checks that exist plus the constraints the property names; sites that are internal errors or need a prior defect stay uncovered (listed in evidence); gcc 12 -pedantic-errors guards language-level entries."),
 }
 
 NOT_YET = "check not built yet in this round (planned per DESIGN.md section 10); no claim is made"
